@@ -2,6 +2,7 @@
 C09 — tables are delivered only with a valid CRC_32; muxed sections carry a valid one.
 -/
 import Astits.Props.C10
+import Astits.Proofs.CRCBurst
 import Astits.Model.PSI
 import Astits.Generated.Exprs
 namespace Astits.C09
@@ -66,6 +67,53 @@ theorem crc_tables : ∀ t : Fin 256, hasCRC32 t.val =
     (t.val == 0 || t.val == 2 || t.val == 0x73 || t.val == 0x40 || t.val == 0x41 || t.val == 0x42 || t.val == 0x46
       || decide (0x4e ≤ t.val ∧ t.val ≤ 0x6f)) := by decide +kernel
 
+/-! #### burst detection -/
+
+/-- the byte-wise reference CRC is the bit-serial register run over the message bits, MSB first -/
+theorem crcFrom_bits (c : BitVec 32) (bs : Bytes) :
+    Spec.crcFrom c bs = feedBits c (bs.flatMap Spec.bitsOfByte) := by
+  induction bs generalizing c with
+  | nil => rfl
+  | cons b r ih =>
+    simp only [Spec.crcFrom, List.foldl_cons, List.flatMap_cons, feedBits, List.foldl_append] at *
+    exact ih _
+
+/-- **any corruption confined to at most 32 consecutive bits changes the CRC register**, whatever the message, its
+length, the position of the burst and the initial register: with `m` the original bits and `e` the error pattern
+(zeros, a one, up to 31 arbitrary bits, zeros) -/
+theorem burst32_detected (c : BitVec 32) (m : List Bool) (a t : Nat) (b : List Bool) (hb : b.length ≤ 31)
+    (hlen : m.length = a + (b.length + 1) + t) :
+    feedBits c (xorBits m (List.replicate a false ++ (true :: b) ++ List.replicate t false)) ≠ feedBits c m := by
+  have hx := feedBits_xor c 0#32 m (List.replicate a false ++ (true :: b) ++ List.replicate t false)
+    (by simp [hlen]; omega)
+  rw [BitVec.xor_zero] at hx
+  rw [hx]
+  intro h
+  have hz : feedBits 0#32 (List.replicate a false ++ (true :: b) ++ List.replicate t false) = 0#32 := by
+    have := congrArg (fun x => feedBits c m ^^^ x) h
+    simp only [← BitVec.xor_assoc, BitVec.xor_self, BitVec.zero_xor] at this
+    exact this
+  exact burst_nonzero a t b hb hz
+
+/-- in particular every single-bit error is detected -/
+theorem single_bit_detected (c : BitVec 32) (m : List Bool) (a t : Nat) (hlen : m.length = a + 1 + t) :
+    feedBits c (xorBits m (List.replicate a false ++ [true] ++ List.replicate t false)) ≠ feedBits c m :=
+  burst32_detected c m a t [] (by simp) (by simpa using hlen)
+
+/-- a section accepted by the CRC check has residue 0 over [table_id … CRC_32]; so a valid section hit by a burst of
+at most 32 bits anywhere in that range (CRC field included) has a non-zero residue and is rejected -/
+theorem accepted_has_zero_residue (body : Bytes) (stored : BitVec 32) (h : computeCRC32 body = stored) :
+    computeCRC32 (body ++ be32 stored) = 0#32 := by
+  rw [← h]; exact C10.residue_zero body
+
+theorem corrupted_section_rejected (sec : List Bool) (a t : Nat) (b : List Bool) (hb : b.length ≤ 31)
+    (hlen : sec.length = a + (b.length + 1) + t) (hvalid : feedBits 0xFFFFFFFF#32 sec = 0#32) :
+    feedBits 0xFFFFFFFF#32 (xorBits sec (List.replicate a false ++ (true :: b) ++ List.replicate t false)) ≠ 0#32 := by
+  have := burst32_detected 0xFFFFFFFF#32 sec a t b hb hlen
+  rw [hvalid] at this
+  exact this
+
 example : crcBit 0x80000000#32 = 0x04C11DB7#32 := by decide
+example : xorBits [true, false, true] [false, true, true] = [true, true, false] := by decide
 
 end Astits.C09
